@@ -36,7 +36,11 @@ type scopeT struct {
 	Kind   string `json:"kind"`
 	Parent int    `json:"parent"`
 	Ev     bool   `json:"ev"`
+	Wrap   string `json:"wrap"` // files: none | cjs-m | cjs-e | cjs-r | lazy-r | lazy-i
 }
+
+func isCJS(w string) bool { return strings.HasPrefix(w, "cjs-") }
+
 type declT struct {
 	Scope int    `json:"scope"`
 	Kind  string `json:"kind"`
@@ -57,6 +61,7 @@ type symT struct {
 	Num    string `json:"num"`
 	Min    string `json:"min"`
 	PinNR  bool   `json:"pinNotReserved"`
+	Val    int    `json:"val"` // marker the binding holds at the end (-2: undefined)
 }
 type caseT struct {
 	Sloppy  bool     `json:"sloppy"`
@@ -88,6 +93,9 @@ type program struct {
 	HasEval  bool
 	Expect   map[string]interface{} // reference id -> value the specification predicts for the deferred read
 	NFiles   int
+	Wrapped  bool                // some file has a wrapper kind other than "none"
+	FTypes   map[string]string   // file -> "esm" | "cjs" (how the reference loader of the Node runner treats it)
+	CJSNames map[string][]string // CommonJS file -> its export names
 	extraRef int
 }
 
@@ -148,17 +156,22 @@ func (g *renderer) body(s int, ind string, skipDecls bool) {
 			}
 		}
 	}
-	bodyRefs := 0
+	evalCalls := 0
 	for _, ch := range g.children[s] {
 		g.scope(ch, ind)
 	}
 	for k, rf := range g.c.Refs {
 		if rf.Scope == s && rf.Pos == "body" {
-			fmt.Fprintf(sb, "%s%s;\n", ind, g.refExpr(k))
-			bodyRefs++
+			x := g.refExpr(k)
+			fmt.Fprintf(sb, "%s%s;\n", ind, x)
+			if strings.Contains(x, "eval(") {
+				evalCalls++
+			}
 		}
 	}
-	if g.c.Scopes[s-1].Ev && bodyRefs == 0 {
+	// a scope with ev = TRUE always contains a direct eval in its body (references to
+	// free names are rendered as plain identifiers, so they do not count)
+	if g.c.Scopes[s-1].Ev && evalCalls == 0 {
 		fmt.Fprintf(sb, "%seval(\"0\");\n", ind)
 	}
 }
@@ -291,23 +304,72 @@ func render(c *caseT, splitting bool) *program {
 		}
 	}
 	extra := 1000
+	p.FTypes = map[string]string{}
+	p.CJSNames = map[string][]string{}
+	wrapOf := func(f int) string {
+		if w := c.Scopes[f-1].Wrap; w != "" {
+			return w
+		}
+		return "none"
+	}
 	for f := 1; f <= nf; f++ {
 		sb := &strings.Builder{}
 		g.sb = sb
 		name := fmt.Sprintf("f%d.js", f)
+		wf := wrapOf(f)
+		p.FTypes[name] = "esm"
+		if isCJS(wf) {
+			p.FTypes[name] = "cjs"
+			p.Wrapped = true
+			sb.WriteString("\"use strict\";\n") // the model's module mode is strict code throughout
+		} else if wf != "none" {
+			p.Wrapped = true
+		}
 		var tail []string
 		if !c.Sloppy {
-			// every file imports the later ones: for effect and by name under
-			// local names outside the alphabet
+			// every file loads the later ones, for effect and by name (under local names
+			// outside the alphabet), in the way that gives the later file its wrapper kind:
+			//   none          import "./fj.js"; import { t as ij_t } from "./fj.js"
+			//   cjs-m, cjs-e  the same import statements (the imported file is a CommonJS module)
+			//   cjs-r         require("./fj.js") for effect (the file has no export syntax at all)
+			//   lazy-r        const __rj = require("./fj.js") of an ES module (wrapped in __esm)
+			//   lazy-i        import("./fj.js").then(...) without code splitting (wrapped in __esm)
+			// a CommonJS file cannot use import statements: it loads everything with require()
+			var body []string
 			for j := f + 1; j <= nf; j++ {
-				fmt.Fprintf(sb, "import \"./f%d.js\";\n", j)
-				for _, t := range tops[j] {
+				wj := wrapOf(j)
+				read := func(t top, expr string) {
 					extra++
-					local := fmt.Sprintf("i%d_%s", j, strings.ReplaceAll(t.name, "$", "S"))
-					fmt.Fprintf(sb, "import { %s as %s } from \"./f%d.js\";\n", t.name, local, j)
-					tail = append(tail, fmt.Sprintf("__L(%d, %s, () => %s);", extra, local, local))
+					tail = append(tail, fmt.Sprintf("__L(%d, %s, () => %s);", extra, expr, expr))
 					p.Expect[fmt.Sprint(extra)] = float64(t.mark)
 				}
+				switch {
+				case wj == "lazy-i":
+					var reads []string
+					for _, t := range tops[j] {
+						extra++
+						reads = append(reads, fmt.Sprintf("__L(%d, __n.%s, () => __n.%s);", extra, t.name, t.name))
+						p.Expect[fmt.Sprint(extra)] = float64(t.mark)
+					}
+					body = append(body, fmt.Sprintf("import(\"./f%d.js\").then((__n) => { %s });", j, strings.Join(reads, " ")))
+				case wj == "cjs-r":
+					body = append(body, fmt.Sprintf("require(\"./f%d.js\");", j))
+				case wj == "lazy-r" || isCJS(wf):
+					body = append(body, fmt.Sprintf("const __r%d = require(\"./f%d.js\");", j, j))
+					for _, t := range tops[j] {
+						read(t, fmt.Sprintf("__r%d.%s", j, t.name))
+					}
+				default:
+					fmt.Fprintf(sb, "import \"./f%d.js\";\n", j)
+					for _, t := range tops[j] {
+						local := fmt.Sprintf("i%d_%s", j, strings.ReplaceAll(t.name, "$", "S"))
+						fmt.Fprintf(sb, "import { %s as %s } from \"./f%d.js\";\n", t.name, local, j)
+						read(t, local)
+					}
+				}
+			}
+			for _, b := range body {
+				sb.WriteString(b + "\n")
 			}
 		}
 		g.body(f, "", false)
@@ -319,7 +381,20 @@ func render(c *caseT, splitting bool) *program {
 			for _, t := range tops[f] {
 				ex = append(ex, t.name)
 			}
-			fmt.Fprintf(sb, "export { %s };\n", strings.Join(ex, ", "))
+			switch wf {
+			case "cjs-m":
+				fmt.Fprintf(sb, "module.exports = { %s };\n", strings.Join(ex, ", "))
+				p.CJSNames[name] = ex
+			case "cjs-e":
+				for _, n := range ex {
+					fmt.Fprintf(sb, "exports.%s = %s;\n", n, n)
+				}
+				p.CJSNames[name] = ex
+			case "cjs-r":
+				p.CJSNames[name] = nil
+			default:
+				fmt.Fprintf(sb, "export { %s };\n", strings.Join(ex, ", "))
+			}
 		} else {
 			for _, t := range tops[f] {
 				p.Probes = append(p.Probes, t.name)
@@ -419,7 +494,7 @@ func allConfigs0(c *caseT, p *program) []config {
 			out = append(out, config{Mode: "build", Format: f, Minify: m, Target: "es2019"})
 		}
 	}
-	if p.NFiles >= 2 {
+	if p.NFiles >= 2 && !p.Wrapped { // "lazy-i" is import() without code splitting
 		for _, m := range bools {
 			for _, k := range bools {
 				out = append(out, config{Mode: "build", Format: "esm", Minify: m, KeepNames: k, Splitting: true})
@@ -532,14 +607,16 @@ func compile(r *core.Run, dir string, p *program, cf config) compiled {
 // execution by Node
 
 type job struct {
-	ID         string            `json:"id"`
-	Kind       string            `json:"kind"`
-	Files      map[string]string `json:"files"`
-	Entries    []string          `json:"entries"`
-	Globals    []string          `json:"globals"`
-	WNames     []string          `json:"wnames"`
-	Probes     []string          `json:"probes"`
-	GlobalName string            `json:"globalName"`
+	ID         string              `json:"id"`
+	Kind       string              `json:"kind"`
+	Files      map[string]string   `json:"files"`
+	Entries    []string            `json:"entries"`
+	Globals    []string            `json:"globals"`
+	WNames     []string            `json:"wnames"`
+	Probes     []string            `json:"probes"`
+	GlobalName string              `json:"globalName"`
+	FTypes     map[string]string   `json:"ftypes,omitempty"`
+	CJSNames   map[string][]string `json:"cjsNames,omitempty"`
 }
 type jobResult struct {
 	ID      string                            `json:"id"`
@@ -653,6 +730,13 @@ func wnames(c *caseT, mode string) []string {
 	return out
 }
 
+// treeHash identifies a case by the tree alone (not by the predictions exported
+// with it), so that the order of the cases and the configurations picked for
+// them do not change when the specification exports another prediction
+func treeHash(c *caseT) string {
+	return core.Hash(map[string]interface{}{"sloppy": c.Sloppy, "scopes": c.Scopes, "decls": c.Decls, "refs": c.Refs})
+}
+
 func inputKind(c *caseT) string {
 	if c.Sloppy {
 		return "script"
@@ -668,7 +752,10 @@ func inputKind(c *caseT) string {
 //   - class-expr-name-in-eval-scope: the name of a class expression whose
 //     body contains direct eval (all differing references resolve to it);
 //   - block-function-in-class-body: a function declared in a block inside a
-//     class body of a sloppy script (all differing references have its name).
+//     class body of a sloppy script (all differing references have its name);
+//   - with-pinned-block-function-and-its-hoisted-var: a sloppy block-level
+//     function referenced through "with" and the output does not parse because
+//     its name is declared twice.
 func causeOf(c *caseT, cf config, bad []int, errText string) string {
 	anc := func(s int) []int {
 		var out []int
@@ -733,6 +820,27 @@ func causeOf(c *caseT, cf config, bad []int, errText string) string {
 			for _, e := range c.Decls {
 				if top && e.Kind == "fun" && e.Name == d.Name && c.Scopes[e.Scope-1].Kind == "file" {
 					return "tree-shaken-function-shares-symbol-with-block-function"
+				}
+			}
+		}
+	}
+	// a sloppy block-level function that is referenced through "with" (pinned): esbuild
+	// rewrites it to "let f = function(){}; var f = f", the block-level symbol normally
+	// gets another name than the hoisted var, but a pinned one keeps it
+	if c.Sloppy && strings.Contains(errText, "has already been declared") {
+		for _, d := range c.Decls {
+			if d.Kind != "fun" || !blockLike(c.Scopes[d.Scope-1].Kind) || !strings.Contains(errText, "Identifier '"+d.Name+"' has already been declared") {
+				continue
+			}
+			inCls := false
+			for _, a := range anc(d.Scope) {
+				if c.Scopes[a-1].Kind == "cls" {
+					inCls = true
+				}
+			}
+			for k := range c.Refs {
+				if y := c.Res[k]; !inCls && c.ViaWith[k] && y > 0 && c.Syms[y-1].S == d.Scope && c.Syms[y-1].N == d.Name && c.Syms[y-1].Lvl == "m" {
+					return "with-pinned-block-function-and-its-hoisted-var"
 				}
 			}
 		}
@@ -822,7 +930,7 @@ func process(r *core.Run, units []*unit, st *stats) {
 		for split, p := range u.progs {
 			for _, w := range wmodes(p) {
 				jobs = append(jobs, job{ID: fmt.Sprintf("%d/in/%v/%s", u.idx, split, w), Kind: inputKind(u.c), Files: p.Files, Entries: p.Entries,
-					Globals: p.Globals, WNames: wnames(u.c, w), Probes: p.Probes})
+					Globals: p.Globals, WNames: wnames(u.c, w), Probes: p.Probes, FTypes: p.FTypes, CJSNames: p.CJSNames})
 			}
 		}
 		for k, o := range u.outs {
@@ -868,6 +976,21 @@ func compare(r *core.Run, u *unit, results map[string]*jobResult, st *stats) {
 			for id, want := range p.Expect {
 				if got, ok := in.Def[id]; !ok || !eqVal(got, want) {
 					driftMsg = fmt.Sprintf("reference %s: the specification resolves it to %v, V8 reads %v (with-mode %s)", id, want, got, w)
+				}
+			}
+			// the final value of every top-level binding of an unwrapped script (read back by
+			// name): specification vs V8 (e.g. V8 hoists a sloppy block function past an
+			// enclosing block function of the same name, B.3.3 does not)
+			for _, y := range c.Syms {
+				if !c.Sloppy || !y.Top || y.Lvl != "m" || y.Val == 0 { // 0: a record without the prediction (old replay file)
+					continue
+				}
+				var want interface{} = float64(marker(y.Val))
+				if y.Val == -2 {
+					want = "undefined"
+				}
+				if got, ok := in.Probes[y.N]; ok && !eqVal(got, want) {
+					driftMsg = fmt.Sprintf("top-level name %s: the specification predicts the final value %v, V8 reads %v", y.N, want, got)
 				}
 			}
 		}
@@ -917,6 +1040,10 @@ func compare(r *core.Run, u *unit, results map[string]*jobResult, st *stats) {
 			out := results[fmt.Sprintf("%d/%d/%s", u.idx, k, w)]
 			if out == nil {
 				r.Infra("no result for the output program of case %s config %s", u.hash, cf)
+				return
+			}
+			if out.Error == "harness: TIMEOUT" || in.Error == "harness: TIMEOUT" {
+				r.Infra("the Node runner gave up on a program of case %s config %s (a promise that never settles); no verdict for it", u.hash, cf)
 				return
 			}
 			if out.Error != "" {
@@ -1068,13 +1195,26 @@ func replay(r *core.Run) {
 		r.Infra("replay case undecodable: %v", err)
 		return
 	}
-	u := &unit{idx: 0, raw: rec.Detail.Case, c: &c, hash: core.Hash(json.RawMessage(rec.Detail.Case))}
+	u := &unit{idx: 0, raw: rec.Detail.Case, c: &c, hash: treeHash(&c)}
 	u.configs = allConfigs(&c, render(&c, false))
 	st := &stats{byCoinc: map[string]int{}, byConfig: map[string]int{}, rejectedWhy: map[string]int{}}
 	process(r, []*unit{u}, st)
+	dump := os.Getenv("VERIF_C15_DUMP") // developer knob: print the input and every output
+	if dump != "" {
+		for name, src := range u.progs[false].Files {
+			fmt.Fprintf(os.Stderr, "=== input %s\n%s", name, src)
+		}
+	}
 	for k, cf := range u.configs {
 		if u.outs[k].Err == "" {
 			fmt.Fprintf(os.Stderr, "--- %s\n", cf)
+			if dump != "" && (dump == "all" || dump == cf.String()) {
+				for name, src := range u.outs[k].Files {
+					fmt.Fprintf(os.Stderr, "=== output %s\n%s", name, src)
+				}
+			}
+		} else {
+			fmt.Fprintf(os.Stderr, "--- %s: esbuild error: %s\n", cf, u.outs[k].Err)
 		}
 	}
 }
@@ -1082,6 +1222,8 @@ func replay(r *core.Run) {
 func Run(r *core.Run) {
 	r.Assume("the binding graph is observed by execution: every declaration is initialised with a marker (declarations whose initialisers write one binding share it), every reference logs the value it reads immediately and again after the program has finished; all functions are called and all blocks entered, so never-executed code is not covered")
 	r.Assume("TDZ-dependent reads, labels and private names are not generated; direct eval and with only occur in sloppy scripts compiled without bundling (esbuild documents that direct eval does not pin top-level names of bundled ES modules)")
+	r.Assume("bundles: every file has a wrapper kind (plain ES module, CommonJS via module.exports / exports.x / require()d without export syntax, ES module that is require()d / import()ed without splitting); CommonJS files carry a \"use strict\" directive; wrapped files are not combined with code splitting; a free 'arguments' at the top level of a file is not generated when a file of the chunk is wrapped (the wrapper closure's own arguments object is visible there)")
+	r.Assume("the set of generated trees is a function of VERIF_SEED and the tier only (fixed rounds and walks, no wall-clock cut)")
 	r.Assume("the abstract minifier sequence of Rename.tla is not the character-frequency order of the real minifier: the model checks the design of the slot assignment, the replay checks the real names")
 	if r.Replay != "" {
 		replay(r)
@@ -1101,7 +1243,7 @@ func Run(r *core.Run) {
 	if r.Thorough() {
 		designs = []string{"Rename.design-module2.cfg", "Rename.design-script2.cfg"} // supersets of the quick ones
 	}
-	only := os.Getenv("VERIF_C15_ONLY") // developer knob: "trees" | "props"
+	only := os.Getenv("VERIF_C15_ONLY") // developer knob: "trees" | "props" | "cex"
 	if only != "" {
 		designs = nil
 	}
@@ -1117,52 +1259,64 @@ func Run(r *core.Run) {
 	// nested name pinned by "with" is not reserved), enumerated exhaustively for a small
 	// bound and replayed under every configuration: a counterexample on the model
 	// alone is no verdict, only the real code's behaviour is
+	// (4b) the same for the hypothetical model ReserveWrappedFree = FALSE (free names used
+	// inside CommonJS-wrapped files are not reserved): its counterexamples are exactly
+	// the trees on which the reservation matters; the real code must pass them
 	cexSt := &stats{byCoinc: map[string]int{}, byConfig: map[string]int{}, rejectedWhy: map[string]int{}}
-	wg.Add(1)
-	go func() {
-		defer wg.Done()
-		if only != "" {
-			return
-		}
+	cexModSt := &stats{byCoinc: map[string]int{}, byConfig: map[string]int{}, rejectedWhy: map[string]int{}}
+	cexRun := func(cfg string, base int, st *stats) {
 		var units []*unit
-		res, err := tlcrun.Run(r, tlcrun.Options{Module: "Rename", Config: "Rename.cex-script.cfg", Workers: 2, TimeoutSec: 1400, NoDeadlock: true,
+		res, err := tlcrun.Run(r, tlcrun.Options{Module: "Rename", Config: cfg, Workers: 2, TimeoutSec: 1400, NoDeadlock: true,
 			OnCase: func(raw []byte) {
 				cp := append([]byte{}, raw...)
 				var c caseT
 				if json.Unmarshal(cp, &c) == nil {
-					units = append(units, &unit{raw: cp, c: &c, hash: core.Hash(json.RawMessage(cp))})
+					units = append(units, &unit{raw: cp, c: &c, hash: treeHash(&c)})
 				}
 			}})
 		if err != nil {
-			r.Infra("counterexample enumeration failed: %v", err)
+			r.Infra("counterexample enumeration %s failed: %v", cfg, err)
 			return
 		}
-		r.Logf("TLC Rename/Rename.cex-script.cfg: %d states, %d counterexamples of the as-implemented model, %.1fs", res.Distinct, len(units), res.Wall.Seconds())
+		r.Logf("TLC Rename/%s: %d states, %d counterexamples of the model variant, %.1fs", cfg, res.Distinct, len(units), res.Wall.Seconds())
 		sort.Slice(units, func(i, j int) bool { return units[i].hash < units[j].hash })
 		for i, u := range units {
-			u.idx = 1000000 + i
+			u.idx = base + i
 			u.configs = allConfigs(u.c, render(u.c, false))
 		}
-		process(r, units, cexSt)
+		process(r, units, st)
+	}
+	wg.Add(1)
+	go func() {
+		defer wg.Done()
+		if only != "" && only != "cex" {
+			return
+		}
+		cexRun("Rename.cex-script.cfg", 1000000, cexSt)
+		cexMod := "Rename.cex-module.cfg"
+		if r.Thorough() {
+			cexMod = "Rename.cex-module2.cfg" // a superset
+		}
+		cexRun(cexMod, 2000000, cexModSt)
 	}()
 	// (3) mangled properties (scenarios enumerated by TLC, records validated by TLC)
 	wg.Add(1)
 	go func() {
 		defer wg.Done()
-		if only != "trees" {
+		if only != "trees" && only != "cex" {
 			runProps(r)
 		}
 	}()
-	// (2) trees generated by TLC (seeded random walks, in rounds until the time
-	// budget of the tier is used: the machine is shared and TLC's speed varies),
-	// replayed through the real esbuild
+	// (2) trees generated by TLC (seeded random walks), replayed through the real
+	// esbuild.  The number of rounds and the walks per round are fixed per tier:
+	// the set of trees is a function of VERIF_SEED only, never of the machine's
+	// speed (a loaded machine takes longer, it does not check less).
 	st := &stats{byCoinc: map[string]int{}, byConfig: map[string]int{}, rejectedWhy: map[string]int{}}
 	seen := map[string]bool{}
 	total := 0
 	walks := r.Pick(400, 800)
 	procs := r.Pick(2, 3)
-	budget := time.Duration(r.Pick(70, 780)) * time.Second
-	maxRounds := r.Pick(6, 40)
+	maxRounds := r.Pick(6, 8)                       // thorough: 3 processes per generator, rounds of up to 1600 walks, 8 configurations per tree
 	if v := os.Getenv("VERIF_C15_WALKS"); v != "" { // developer knobs
 		fmt.Sscan(v, &walks)
 	}
@@ -1170,31 +1324,36 @@ func Run(r *core.Run) {
 		fmt.Sscan(v, &maxRounds)
 	}
 	nconf := r.Pick(3, 8)
-	if only == "props" {
+	if only == "props" || only == "cex" {
 		maxRounds = 0
 	}
 	for round := 0; round < maxRounds; round++ {
 		t0 := time.Now()
 		var units []*unit
 		sink := func(raw []byte) {
-			h := core.Hash(json.RawMessage(raw))
-			if seen[h] {
-				return
-			}
-			seen[h] = true
 			var c caseT
 			if err := json.Unmarshal(raw, &c); err != nil {
 				r.Infra("undecodable CASE record: %v", err)
 				return
 			}
+			h := treeHash(&c)
+			if seen[h] {
+				return
+			}
+			seen[h] = true
 			units = append(units, &unit{idx: total + len(units), raw: raw, c: &c, hash: h})
 		}
-		// rounds grow: the first one is small so that a loaded machine still finishes in time
+		// rounds grow (fixed schedule): the first ones are small so that a problem shows early
 		w := walks * (round + 1) / 2
 		if w > walks*2 {
 			w = walks * 2
 		}
 		gens := []genSpec{{"Rename.gen-module.cfg", procs, w}, {"Rename.gen-script.cfg", procs, w}}
+		if v := os.Getenv("VERIF_C15_GEN"); v == "module" { // developer knob
+			gens = gens[:1]
+		} else if v == "script" {
+			gens = gens[1:]
+		}
 		core.Parallel(len(gens), 2, func(i int) { generate(r, gens[i], r.Seed*100+int64(round), sink) })
 		r.Logf("round %d: TLC generated %d new trees in %.0fs", round+1, len(units), time.Since(t0).Seconds())
 		sort.Slice(units, func(i, j int) bool { return units[i].hash < units[j].hash }) // arrival order of the TLC processes does not matter
@@ -1207,12 +1366,9 @@ func Run(r *core.Run) {
 		process(r, units, st)
 		r.Logf("round %d: %d new trees (%d so far, %d configurations, %d executions, %d violations, %d drift), %.0fs", round+1, len(units), total,
 			st.configsRun, st.executions, r.Violations(), st.drift, time.Since(t0).Seconds())
-		if r.Elapsed()+time.Since(t0)*8/10 > budget {
-			break
-		}
 	}
 	wg.Wait()
-	r.AddTraces(int64(st.executions + cexSt.executions))
+	r.AddTraces(int64(st.executions + cexSt.executions + cexModSt.executions))
 	r.Set("trees", st.cases)
 	r.Set("configurations_run", st.configsRun)
 	r.Set("configurations_rejected_by_esbuild", st.rejected)
@@ -1224,7 +1380,9 @@ func Run(r *core.Run) {
 	r.Set("model_counterexamples_reproduced_by_real_code", st.modelAgreed+cexSt.modelAgreed)
 	r.Set("model_counterexamples_not_reproduced", st.modelOnly+cexSt.modelOnly)
 	r.Set("model_counterexample_trees_replayed", cexSt.cases)
-	st.executions += cexSt.executions
+	r.Set("wrapped_free_name_trees_replayed", cexModSt.cases)
+	r.Set("wrapped_free_name_configurations_run", cexModSt.configsRun)
+	st.executions += cexSt.executions + cexModSt.executions
 	r.Set("node_executions", st.executions)
 	r.Set("rule", "case = one scope tree generated by TLC from Rename.tla (-simulate, seeded) rendered as a marker program and compiled by the real esbuild under several configurations (mode x format x minify-identifiers x keep-names x target x splitting); distinct by the hash of the tree; non-trivial = the tree has at least one name coincidence computed by the specification (shadowing candidate, duplicate top-level name across files, a name the number renamer has to change or that equals a generated numbered name, a declared or free name that equals a minified name, a declared name equal to a free name)")
 	if st.drift > 0 && st.drift*50 > st.cases {
